@@ -179,43 +179,66 @@ def sampling(tier, rng, rep):
         for model in ("poincare", "halfspace"):
             for degrees in (True, False):
                 inp = {"k": k.tolist(), "l": l.tolist(), "model": model, "degrees": degrees}
-
-                def body():
-                    c, r, th = S.circle_parameters(model=model, degrees=degrees)
-                    if not (np.all(np.isfinite(c)) and np.isfinite(r)):
-                        return "skip"          # straight-line limit: no finite circle (the drawing code substitutes a line)
-                    if r > 1e6:
-                        return "skip"
-                    tr = np.deg2rad(th) if degrees else th
-                    ends = S.endpoint_coords(model)
-                    a0, a1 = tr
-                    if a1 < a0:
-                        a1 += 2 * np.pi
-                    # both endpoints are the ends of the arc
-                    pts = np.stack([c + r * np.array([np.cos(a), np.sin(a)]) for a in (a0, a1)])
-                    d_same = max(np.linalg.norm(pts[0] - ends[0]), np.linalg.norm(pts[1] - ends[1]))
-                    d_swap = max(np.linalg.norm(pts[0] - ends[1]), np.linalg.norm(pts[1] - ends[0]))
-                    tolr = 1e-6 * (1 + r + np.max(np.abs(ends))) + 1e-9 * (1 + r) / max(np.sum((k - l) ** 2), 1e-12)   # conditioning of nearly coincident endpoints
-                    if min(d_same, d_swap) > tolr:
-                        rep.fail("arc_ends_are_the_endpoints", f"{pts.tolist()} vs {ends.tolist()}", inp)
-                        return
-                    # every sampled point of the ccw arc lies in the model and between the endpoints on the geodesic
-                    A, B = h.Point(k.copy(), model="klein"), h.Point(l.copy(), model="klein")
-                    dAB = A.distance(B) if np.linalg.norm(k) < 1 - 1e-12 else None
-                    for s in np.linspace(0.02, 0.98, 9):
-                        a = a0 + s * (a1 - a0)
-                        q = c + r * np.array([np.cos(a), np.sin(a)])
-                        if model == "poincare" and q @ q >= 1 + 1e-9:
-                            rep.fail("arc_inside_model", f"sample {q} outside the disc", inp); return
-                        if model == "halfspace" and q[-1] <= -1e-9:
-                            rep.fail("arc_inside_model", f"sample {q} below the boundary", inp); return
-                        if dAB is not None and dAB > 1e-6 and min(q @ q if model == "poincare" else 1, 1) < 1 - 1e-9:
-                            Q = h.Point(q.copy(), model=model)
-                            if not (abs(A.distance(Q) + Q.distance(B) - dAB) <= 1e-5 * (1 + dAB)):
-                                rep.fail("arc_points_on_segment", f"sample at s={s} not between the endpoints", inp); return
-                    return (tr[1] < tr[0])
-                res = rep.attempt("circle_parameters_run", inp, body)
+                res = rep.attempt("circle_parameters_run", inp, lambda: _arc_clauses(rep, inp, k, l, S.circle_parameters(model=model, degrees=degrees), model, degrees, S.endpoint_coords(model)))
                 rep.case(key=(t, model, degrees), nontrivial=bool(res is True), sample=inp if t == 0 and degrees else None)
+        if t % 4 == 0:
+            # composite segments: the reported parameters of unit j are those of segment j.  Chords crossing the x-axis on
+            # either side of the origin: seen from their circle's centre the arc straddles the direction 0 or +-pi, so several
+            # units of one composite are reordered by the arc rules
+            kk = int(rng.integers(3, 7))
+            side = rng.choice([-1.0, 1.0], size=kk)
+            ka = np.stack([side * rng.uniform(0.4, 0.85, kk), rng.uniform(0.1, 0.4, kk)], axis=-1)
+            kb = ka * np.array([1.0, -1.0]) * rng.uniform(0.9, 1.1, size=(kk, 2))       # nearly mirror-symmetric chords: circle centres near the x-axis
+            Sc = h.Segment(h.Point(ka.copy(), model="klein"), h.Point(kb.copy(), model="klein"))
+            for model in ("poincare", "halfspace"):
+                for degrees in (True, False):
+                    inpc = {"klein_a": ka.tolist(), "klein_b": kb.tolist(), "model": model, "degrees": degrees, "composite": True}
+
+                    def comp():
+                        c, r, th = Sc.circle_parameters(model=model, degrees=degrees)
+                        ends = Sc.endpoint_coords(model)
+                        for j in range(kk):
+                            if _arc_clauses(rep, {**inpc, "unit": j}, ka[j], kb[j], (c[j], r[j], th[j]), model, degrees, ends[j]) is None:
+                                return
+                    rep.attempt("circle_parameters_run", inpc, comp)
+                    rep.case(key=(t, "composite", model, degrees), nontrivial=True)
+
+
+def _arc_clauses(rep, inp, k, l, params, model, degrees, ends):
+    """the clauses of C14 about the reported arc of ONE segment with Klein endpoints k, l: returns None after a failure,
+    "skip" in the straight-line limit, otherwise whether the arc crosses the angle branch cut"""
+    c, r, th = params
+    if not (np.all(np.isfinite(c)) and np.isfinite(r)):
+        return "skip"          # straight-line limit: no finite circle (the drawing code substitutes a line)
+    if r > 1e6:
+        return "skip"
+    tr = np.deg2rad(th) if degrees else th
+    a0, a1 = tr
+    if a1 < a0:
+        a1 += 2 * np.pi
+    # both endpoints are the ends of the arc
+    pts = np.stack([c + r * np.array([np.cos(a), np.sin(a)]) for a in (a0, a1)])
+    d_same = max(np.linalg.norm(pts[0] - ends[0]), np.linalg.norm(pts[1] - ends[1]))
+    d_swap = max(np.linalg.norm(pts[0] - ends[1]), np.linalg.norm(pts[1] - ends[0]))
+    tolr = 1e-6 * (1 + r + np.max(np.abs(ends))) + 1e-9 * (1 + r) / max(np.sum((k - l) ** 2), 1e-12)   # conditioning of nearly coincident endpoints
+    if not (min(d_same, d_swap) <= tolr):
+        rep.fail("arc_ends_are_the_endpoints", f"{pts.tolist()} vs {np.asarray(ends).tolist()}", inp)
+        return None
+    # every sampled point of the ccw arc lies in the model and between the endpoints on the geodesic
+    A, B = h.Point(k.copy(), model="klein"), h.Point(l.copy(), model="klein")
+    dAB = A.distance(B) if np.linalg.norm(k) < 1 - 1e-12 else None
+    for s in np.linspace(0.02, 0.98, 9):
+        a = a0 + s * (a1 - a0)
+        q = c + r * np.array([np.cos(a), np.sin(a)])
+        if model == "poincare" and q @ q >= 1 + 1e-9:
+            rep.fail("arc_inside_model", f"sample {q} outside the disc", inp); return None
+        if model == "halfspace" and q[-1] <= -1e-9:
+            rep.fail("arc_inside_model", f"sample {q} below the boundary", inp); return None
+        if dAB is not None and dAB > 1e-6 and min(q @ q if model == "poincare" else 1, 1) < 1 - 1e-9:
+            Q = h.Point(q.copy(), model=model)
+            if not (abs(A.distance(Q) + Q.distance(B) - dAB) <= 1e-5 * (1 + dAB)):
+                rep.fail("arc_points_on_segment", f"sample at s={s} not between the endpoints", inp); return None
+    return bool(tr[1] < tr[0])
 
 
 def _subspace_check(rng, rep, N, kmin, kmax):
